@@ -342,9 +342,11 @@ def machine(tier, rec, ctl):
             self.do({"op": "init", "model": m})
 
         # ---- parameter values
-        @precondition(lambda self: self.alive() and self.world is not None and self.world.m["params"])
+        @precondition(lambda self: self.dead or (self.world is not None and self.world.m["params"]))
         @rule(data=st.data())
         def set_params(self, data):
+            if self.dead:
+                return
             w = self.world
             params = w.m["params"]
             form = data.draw(st.sampled_from(["list", "tuple", "array", "dict", "symdict", "pairs", "partial", "partial"]))
@@ -359,27 +361,35 @@ def machine(tier, rec, ctl):
             self.do({"op": "set_params", "form": form, "values": vals})
 
         # ---- structural modifications
-        @precondition(lambda self: self.alive() and self.world is not None)
+        @precondition(lambda self: self.dead or (self.world is not None))
         @rule(data=st.data())
         def modify(self, data):
+            if self.dead:
+                return
             self.do(_draw_modification(data, self.world))
 
-        @precondition(lambda self: self.alive() and self.world is not None and self.world.compiled)
+        @precondition(lambda self: self.dead or (self.world is not None and self.world.compiled))
         @rule(data=st.data())
         def modify_then_evaluate(self, data):
             """A modification directly followed by an evaluation, so that every mutator is observed on its own."""
+            if self.dead:
+                return
             if self.do(_draw_modification(data, self.world)) and self.world.can_eval():
                 self.do(_draw_eval(data, self.world, prefer_compiled=True))
 
         # ---- evaluation
-        @precondition(lambda self: self.alive() and self.world is not None and self.world.can_eval())
+        @precondition(lambda self: self.dead or (self.world is not None and self.world.can_eval()))
         @rule(data=st.data())
         def evaluate(self, data):
+            if self.dead:
+                return
             self.do(_draw_eval(data, self.world))
 
-        @precondition(lambda self: self.alive() and self.world is not None and self.world.can_eval())
+        @precondition(lambda self: self.dead or (self.world is not None and self.world.can_eval()))
         @rule(data=st.data())
         def evaluate_one(self, data):
+            if self.dead:
+                return
             op = _draw_eval(data, self.world)
             op["names"] = op["names"][:1]
             self.do(op)
